@@ -22,9 +22,10 @@ def run(repo, chk):
     chk.note_undecided('pixel equality of the fast and general paths', 'perpendicular normals, uniform advance along the arc (geometry values)')
     R = Rules(repo, chk)
     refcheck.run_all(R, repo, chk, 'RECUR', 'crop_ref.py', WHAT, skip=('crop_init', 'lc_init'))
-    R.run('DOMAIN', domain, repo, Soft(chk))
-    R.run('GUARD', guard, repo, Soft(chk))
-    R.run('PAIR', pair, repo, Soft(chk))
+    G = [C + ':EngineLineCropper.get_crop_inputs']
+    R.run('DOMAIN', domain, repo, Soft(chk), soft_for=G)
+    R.run('GUARD', guard, repo, Soft(chk), soft_for=G + [C + ':EngineLineCropper.crop'])
+    R.run('PAIR', pair, repo, Soft(chk), soft_for=G + [C + ':EngineLineCropper.fast_remap'])
     chk.expect('RECUR', 6)
     chk.expect('DOMAIN', 3)
     chk.expect('GUARD', 4)
@@ -38,13 +39,18 @@ def domain(repo, chk):
     interp = {}
     for ds in flow.defs_at.values():
         for d in ds:
-            if d.kind == 'assign' and isinstance(d.value, ast.Call):
-                nm = call_name(d.value) or ''
+            if d.kind != 'assign' or d.stmt is None or d.path != ():
+                continue
+            val = flow.resolve(d.value, d.stmt)
+            if d.name.startswith('_pvs_tmp'):
+                continue
+            if isinstance(val, ast.Call):
+                nm = call_name(val) or ''
                 if nm.endswith('poly1d'):
                     interp.setdefault(d.name, []).append(('total', d))
                 elif nm.endswith('interp1d'):
-                    fv = next((k.value for k in d.value.keywords if k.arg == 'fill_value'), None)
-                    be = next((k.value for k in d.value.keywords if k.arg == 'bounds_error'), None)
+                    fv = next((k.value for k in val.keywords if k.arg == 'fill_value'), None)
+                    be = next((k.value for k in val.keywords if k.arg == 'bounds_error'), None)
                     total = (fv is not None and isinstance(fv, ast.Constant) and fv.value == 'extrapolate') or \
                             (be is not None and is_const(be, False) and fv is not None)
                     interp.setdefault(d.name, []).append(('total' if total else 'partial', d))
